@@ -1,7 +1,7 @@
 (* C18 - the lemmas behind Properties.v, stated over ALL histories (every state reachable from
    the initial one by any command list), and satisfiable Examples (non-vacuity). *)
 From Coq Require Import List Arith ZArith Bool String Lia.
-From C18 Require Import Gen Model ProofsBase ProofsStorage ProofsInv ProofsErr ProofsTrans ProofsFuel ProofsValues ProofsReg ProofsFrame ProofsOps.
+From C18 Require Import Gen Model Spec ProofsBase ProofsStorage ProofsInv ProofsErr ProofsTrans ProofsFuel ProofsValues ProofsReg ProofsFrame ProofsOps ProofsSpec.
 Import ListNotations.
 Local Open Scope list_scope.
 
@@ -56,6 +56,21 @@ Lemma storage_within_capacity : forall gc ops k c, get k (cos (reach gc ops)) = 
 Proof.
   intros gc ops k c G. destruct (Inv_wf _ _ _ (reach_Inv gc ops) G) as (A & B & C). auto.
 Qed.
+
+(* ---- refinement of the documented reference semantics (Spec.v) *)
+Lemma refines_spec_step : forall gc ops o,
+  spec_step o (absS (reach gc ops)) = (absS (fst (step o (reach gc ops))), snd (step o (reach gc ops))).
+Proof.
+  intros gc ops o. apply step_refines; [apply reach_Inv|].
+  exact (run_regok ops (init gc) (init_Inv gc) (init_regok gc)).
+Qed.
+
+Lemma refines_spec_history : forall gc ops,
+  absS (reach gc ops) = spec_reach gc ops /\ snd (run ops (init gc)) = snd (spec_run ops (spec_init gc)).
+Proof. intros. apply refines_spec. Qed.
+
+Lemma status_agrees_with_spec_all : forall gc ops k, co_status k (reach gc ops) = spec_status k (spec_reach gc ops).
+Proof. intros. apply status_agrees_with_spec. Qed.
 
 (* ---- the state machine *)
 Lemma state_machine : forall gc ops o j,
